@@ -10,6 +10,7 @@
  *   reuse                                                                    esl_getopts_Reuse
  *   help grp=N indent=N width=N                                              esl_opt_DisplayHelp into a memory stream (opt rows may carry help=H|~ grp=N)
  *   spoofcmd                                                                 esl_opt_SpoofCmdline
+ *   atof s=H                                                                 esl_str_IsReal(s), bit pattern of atof(s)
  * H = lowercase hex, "-" = empty string, "~" = NULL.
  */
 #include "hcommon.h"
@@ -143,6 +144,12 @@ static void h_op(void)
     T[nT].docgrouptag   = (int) h_argi("grp", 0);
     nT++;
     h_out("ok");
+    return;
+  }
+  if (!strcmp(op, "atof")) {            /* the two libc conversions behind real-valued options, on one string (no object needed) */
+    char *v = field("s");
+    if (!v) v = "";
+    h_out("isreal=%d bits=%s", esl_str_IsReal(v) ? 1 : 0, h_dbits(atof(v)));
     return;
   }
   if (!strcmp(op, "create")) {
